@@ -3,6 +3,7 @@ import json
 import random
 
 import core
+import progrun
 import gen_code
 import gen_lines
 from worker import Worker, Oracle
@@ -43,6 +44,7 @@ def run(ctx):
     tabs = ctx.tables["optables"]
     w = Worker()
     oracles = {}
+    progrun.apply(ctx, "diff_labels", "labels / jump targets / is_jump_target")
     try:
         N = 12 if not ctx.thorough else 400
         names = [it.split(":")[0] for it in drv.ask(["c09.tables"])[0].split()]
